@@ -73,7 +73,19 @@ void *hxw_realloc(void *old, size_t n) {
     if (should_fail(__builtin_return_address(0), 3)) return NULL;
     int64_t oldsz = (old != NULL && hxa_counting) ? (int64_t) malloc_usable_size(old) : 0;
     void *p = realloc(old, n);
-    { extern uint64_t hx_cost_bytes; extern __thread int hx_cost_on; if (hx_cost_on && p != NULL && p != old && old != NULL) hx_cost_bytes += (uint64_t) oldsz; }
+    {
+        /* C08 meter: whether the C library moves a block it grows depends on what the heap looks like at that moment (the cases that
+         * ran before in the same process), so counting real moves made the "deterministic" meter layout-dependent: a buffer grown by
+         * a few bytes per line up to a documented cap (the folded-header cap) was linear or quadratic below the cap depending on the
+         * neighbours.  The meter charges the copy an allocator with power-of-two size classes would make: when the new size leaves
+         * the class of the old block.  That is a function of the sizes alone. */
+        extern uint64_t hx_cost_bytes; extern __thread int hx_cost_on;
+        if (hx_cost_on && p != NULL && old != NULL && oldsz > 0) {
+            uint64_t cls = 16;
+            while (cls < (uint64_t) oldsz) cls <<= 1;
+            if ((uint64_t) n > cls) hx_cost_bytes += (uint64_t) oldsz;
+        }
+    }
     if (hxa_counting) {
         if (p != NULL) {
             if (old == NULL) hxa_live_blocks++;
